@@ -599,8 +599,13 @@ def r02_6(ctx: Ctx) -> None:
     # find_condition_identifiers: identifiers between CONDITIONS and the next keyword
     fci = ctx.fn(RP, "find_condition_identifiers")
     text = txt(fci)
-    ok = "token.type == TokenTypes.CONDITIONS" in text and "token.type.is_a_rule_keyword()" in text and \
-        "in_conditions and token.type == TokenTypes.IDENTIFIER" in text
+    opens = [n for n in walk_local(fci) if isinstance(n, ast.Compare) and len(n.ops) == 1 and txt(n.left).endswith(".type")
+             and isinstance(n.ops[0], (ast.Eq, ast.In)) and "TokenTypes.CONDITIONS" in txt(n.comparators[0])]
+    closes = [c for c in calls(fci) if last_attr(c) == "is_a_rule_keyword"]
+    takes = [n for n in walk_local(fci) if isinstance(n, ast.Compare) and "TokenTypes.IDENTIFIER" in txt(n)]
+    # the section test comes first, so that a section-opening keyword is not taken for a closing one
+    ok = bool(opens) and bool(closes) and bool(takes) and opens[0].lineno < closes[0].lineno
+    _ = text
     ctx.ob("R02.6", RP, fci, "find_condition_identifiers", "scan", ok,
            "identifiers are collected from the CONDITIONS marker up to the next rule keyword", form="")
 
@@ -646,7 +651,30 @@ def r02_7(ctx: Ctx) -> None:
                form=txt(ret.value))
 
 
+def r02_8(ctx: Ctx) -> None:
+    """ the unknown-profile check reads identifiers from every section that holds profile names """
+    qual = "find_condition_identifiers"
+    func = ctx.fn(RP, qual)
+    opened = set()
+    for node in walk_local(func):
+        if isinstance(node, ast.Compare) and len(node.ops) == 1 and txt(node.left).endswith(".type"):
+            comp = node.comparators[0]
+            elts = comp.elts if isinstance(comp, (ast.Tuple, ast.List, ast.Set)) else [comp]
+            for elt in elts:
+                if txt(elt).startswith("TokenTypes."):
+                    opened.add(txt(elt).split(".", 1)[1])
+    inputs = {"EXTENDERS": "`... CONDITIONS a EXTENDERS cds(b and zzz)` with zzz not a signature is accepted",
+              "RELATED": "`... RELATED zzz ...` with zzz not a signature is accepted"}
+    for section in ("CONDITIONS", "EXTENDERS", "RELATED"):
+        ok = section in opened
+        ctx.ob("R02.8", RP, func, qual, f"identifiers of {section} are checked", ok,
+               "profile names are collected for the unknown-profile check from every section that refers to profiles",
+               detail="" if ok else inputs.get(section, ""), form=f"sections scanned: {sorted(opened & {'CONDITIONS', 'EXTENDERS', 'RELATED'})}")
+
+
 def run(ctx: Ctx) -> None:
+    ctx.rule("R02.8", "unknown-profile check covers conditions, extenders and related profiles", floor=3)
+    r02_8(ctx)
     ctx.rule("R02.7", "regenerated negations stay inside the grammar", floor=1)
     r02_7(ctx)
     ctx.rule("R02.1", "precedence is the layering of the recursive descent; negation and groups", floor=14)
